@@ -428,6 +428,30 @@ pub fn run_cnf_large(case: &BigCnfCase, st: &mut Stats) -> CaseResult {
             probes.push(falsifying(case.seed, (ci * 8 + k) as u64, n, c));
         }
     }
+    // assignments that satisfy every unit clause (when the units are consistent): a formula with many unit clauses is
+    // false almost everywhere else, and a compiler that loses a clause is wrongly true exactly there
+    {
+        let mut forced: Vec<Option<bool>> = vec![None; n];
+        let mut consistent = true;
+        for c in clauses.iter().filter(|c| c.len() == 1) {
+            let (v, p) = c[0];
+            if forced[v].map(|x| x != p).unwrap_or(false) {
+                consistent = false;
+            }
+            forced[v] = Some(p);
+        }
+        if consistent && forced.iter().any(|x| x.is_some()) {
+            for k in 0..6u64 {
+                let mut a = assignment(case.seed ^ 0x0171, k, n);
+                for (v, x) in forced.iter().enumerate() {
+                    if let Some(val) = x {
+                        a[v] = *val;
+                    }
+                }
+                probes.push(a);
+            }
+        }
+    }
     let mut models_seen = 0;
     let mut check = |what: &str, f: &dyn Fn(&[bool]) -> bool| -> CaseResult {
         for a in probes.iter() {
@@ -541,6 +565,23 @@ impl SubCheckT for CnfLarge {
             prop_oneof![
                 5 => proptest::collection::vec(proptest::collection::vec(lit, 1..=4), 1..=10),
                 1 => dense,
+                // many unit clauses (4..24 of them over 10..40 variables), a few clauses over the same variables (half of
+                // their literals contradict a unit), and some unrelated short clauses
+                1 => (10u8..=40, 4usize..=24).prop_flat_map(|(nv, k)| {
+                    (
+                        proptest::collection::vec((0..nv, any::<bool>()), k),
+                        proptest::collection::vec(proptest::collection::vec((any::<u16>(), any::<bool>()), 2..=4), 1..=3),
+                        proptest::collection::vec(proptest::collection::vec((0..nv, any::<bool>()), 1..=3), 0..=3),
+                    )
+                        .prop_map(|(units, over, other)| {
+                            let mut cl: Vec<Vec<(u8, bool)>> = units.iter().map(|l| vec![*l]).collect();
+                            for c in over {
+                                cl.push(c.iter().map(|(i, flip)| { let (v, p) = units[(*i as usize) % units.len()]; (v, p != *flip) }).collect());
+                            }
+                            cl.extend(other);
+                            cl
+                        })
+                }),
                 // a few clauses of 9..17 literals (lengths on both sides of 8 and 16) with short ones
                 1 => (14u8..=40).prop_flat_map(|nv| proptest::collection::vec(prop_oneof![1 => proptest::collection::vec((0..nv, any::<bool>()), 1..=3), 2 => proptest::collection::vec((0..nv, any::<bool>()), 9..=17)], 2..=8)),
             ],
